@@ -296,7 +296,8 @@ func runC11(t *testing.T, rec *vrec, sc *c11Scenario, rng *vrng) {
 		capMu.Unlock()
 	}
 	backlog := sc.Part == "backlog"
-	if !backlog {
+	backlogClose := sc.Part == "backlog-close" // nobody ever accepts; everything is shut down with the sessions waiting
+	if !backlog && !backlogClose {
 		go w.acceptLoop()
 	}
 	var peers []*c11Peer
@@ -307,6 +308,24 @@ func runC11(t *testing.T, rec *vrec, sc *c11Scenario, rng *vrng) {
 		if rng.chance(0.5) {
 			time.Sleep(time.Duration(rng.intn(30)) * time.Millisecond)
 		}
+	}
+	if backlogClose {
+		time.Sleep(2 * time.Second)
+		synctest.Wait()
+		rec.count("sessions_waiting_in_the_backlog_at_shutdown", int64(len(w.listener.chAccepts)))
+		if n := len(w.listener.chAccepts); n != min(sc.Clients, acceptBacklog) {
+			w.viol11("C11 a new peer never produced an Accept", "%d sessions waiting in the backlog, %d peers connected", n, sc.Clients)
+		}
+		order := [][]string{{"own-sessions", "listener", "transports"}, {"listener", "own-sessions", "transports"}, {"listener", "transports", "own-sessions"}}[rng.intn(3)]
+		w.shutdown(order, true) // leak check 10 virtual minutes later, before anything is reaped
+		done := make(chan struct{})
+		go func() { w.wg.Wait(); close(done) }()
+		select {
+		case <-done:
+		case <-time.After(time.Minute):
+			w.viol11("C13 caller still blocked a virtual minute after everything was closed", "")
+		}
+		return
 	}
 	if backlog {
 		// nobody accepts while > 128 peers connect; then the backlog is drained
